@@ -460,6 +460,7 @@ Proof.
   - intros inl inr u e _ _ fuel acc. destruct fuel; [reflexivity|]. destruct u as [y|r|[|]]; reflexivity.
   - intros inl e _ fuel acc. destruct fuel; reflexivity.
   - intros inl f args d _ _ _ _ fuel acc. destruct fuel; reflexivity.
+  - intros inl inr fmt args names k _ _ _ _ _ fuel acc. destruct fuel; reflexivity.
   - intros inl inr c a _ _ IHa fuel acc. destruct fuel as [|fuel]; [reflexivity|]. exact (IHa fuel acc).
   - intros inl inr c a b _ _ IHa _ IHb fuel acc. destruct fuel as [|fuel]; [reflexivity|]. cbn [collect_stmt]. rewrite IHb. exact (IHa fuel acc).
   - intros inl inr l _ IH fuel acc. destruct fuel as [|fuel]; [reflexivity|]. exact (IH fuel acc).
